@@ -685,6 +685,14 @@ def case_chain(spec):
             tags += sorted({"prev:" + step_tags_static(st)[1][0] for st in spec["ops"][:depth]})
             if not isinstance(F, Gaussian):
                 tags.append("lhs:" + type(F).__name__.split("[")[0])
+            if step["op"] == "subs" and type(F).__name__.split("[")[0] == "Cat":
+                # a value that mentions the name a lazy Cat introduces: the root cause recorded as the known finding
+                # fresh-name-captures-value-input (substitute() rebuilds the node before substituting its own fresh name)
+                mentioned = set()
+                for n_, vs in step["subs"].items():
+                    mentioned |= set(val_inputs(vs, O.inputs[n_]))
+                if F.name in mentioned:
+                    tags.append("subs-value-mentions-cat-name")
             O2 = orc_step(O, step)
             try:
                 F2 = apply_step(F, O, step)
